@@ -33,6 +33,8 @@ def run_table(ctx, rule, site, cfg, walker_paths, outcome_value, expected, fix_d
     mism = []
     n_con = 0
     for asg, outs in rows:
+        if not outs:
+            continue      # no feasible explored path (loop cut after one unrolled iteration / contradictory atoms)
         exp = expected(asg)
         if exp is None:
             continue
